@@ -1,8 +1,8 @@
 SPECIFICATION Spec
 CONSTANTS N = 2 MaxCalls = 2
-Menu = {"json", "marshal", "bytes", "parse", "struct", "recompose", "pure", "hook"}
+Menu = {"hook", "json", "bytes"}
 Copies = {"json", "marshal", "bytes", "parse", "struct"}
-LockedLookup = TRUE PreRegistered = TRUE ExclusivePool = TRUE Scratch = "percall" Gran = "fine"
+LockedLookup = TRUE PreRegistered = TRUE ExclusivePool = TRUE Scratch = "released" Gran = "fine"
 INVARIANTS Exclusive BufferIsolation NoUnlockedWriteRead SequentialEquivalence
 VIEW DesignView
 CHECK_DEADLOCK FALSE
